@@ -17,7 +17,7 @@ import ast
 import re
 
 from ..flow import Flow
-from ..norm import NotAlgebraic, Poly
+from ..norm import NotAlgebraic, Poly, sql_poly
 from ..pestsym import Item, SymList, first_token, sections, token, total
 from ..report import where_of
 from ..source import AnalysisError, dotted_name
@@ -283,6 +283,38 @@ def run(ctx, chk, tier="quick"):
                 chk.ob("C19.O3", column_role(col0) == "measured", where_of(f, it.node),
                        "%s %s: observation value column = %s" % (kind, sy, _expr(col0)), "the measured master-curve value",
                        key="%s|%s|obsvalue|%s" % (f.qualname, sy, tab))
+                # ... in the unit its name says, and in the same unit as the measured column the simulate command reads
+                try:
+                    from .c17 import sql_alias_unit
+                    from ..units import fmt as _fmt
+                    ue, ua, cname = sql_alias_unit(sel, 0)
+                    if ue is not None and ua is not None:
+                        chk.ob("C19.O3", ue == ua, where_of(f, it.node), "%s %s: observation column %s [%s] named as [%s]" % (kind, sy, cname, _fmt(ue), _fmt(ua)),
+                               "alias unit = expression unit", key="%s|%s|obsunit|%s" % (f.qualname, sy, tab),
+                               why="observations in another unit than the simulated values make every residual meaningless")
+                    sim = ctx.func("simulate_rise.simulate_rise") if tab == "average_rising_depth" else ctx.func("simulate_recession.simulate_recession")
+                    from ..sqlbind import bindings as _bindings
+                    sims = [x for x in ctx.sites_in(sim)] + [b_.site for b_ in _bindings(ctx, sim) if getattr(b_, "via", None)]
+                    for ss in sims:
+                        if ss.stmt is not None and ss.stmt.kind == "select" and tab in {x.table for x in ss.stmt.sources}:
+                            mcols = [c_[0] for c_ in ss.stmt.columns if column_role(c_[0]) == "measured"]
+                            if len(mcols) == 1:
+                                def unq(e):
+                                    # both queries read one view: a table alias in front of a column means nothing
+                                    if isinstance(e, tuple):
+                                        if len(e) == 3 and e[0] == "col":
+                                            return ("col", None, e[2])
+                                        return tuple(unq(x) for x in e)
+                                    if isinstance(e, list):
+                                        return [unq(x) for x in e]
+                                    return e
+                                same = sql_poly(unq(mcols[0])) == sql_poly(unq(col0))
+                                chk.ob("C19.O3", same, where_of(f, it.node),
+                                       "%s %s: observation value = %s ; the simulate command compares with %s" % (kind, sy, _expr(col0), _expr(mcols[0])),
+                                       "the same expression of the view's column", key="%s|%s|obs-vs-simulate|%s" % (f.qualname, sy, tab),
+                                       why="PEST subtracts the k-th simulated value from the k-th observation: both must be the same quantity in the same unit")
+                except NotAlgebraic:
+                    pass
             # rise block before recession block
             if kind == "curves" and len(odata) == 2:
                 tabs = [s.sql_order.get(getattr(it, "source", None), (None,))[0] for it in odata]
